@@ -278,6 +278,11 @@ func runC12(r *Run) {
 		r.Check(w == nil, "R4", fnID(fn)+"#validate-first", P.Pos(fnPos(fn)), "msg.ValidateBasic() checked before the keeper call", "the keeper is called on a path without an error-checked msg.ValidateBasic()", P.witness(w)...)
 	}
 	r.Floor("R4", "ucdao msg handlers", nH, 4)
+
+	// ---------- R5 ----------
+	r.Rule("R5", "TABLE.pool-account-blocked: the ucdao module account is in maccPerms and (*Haqq).BlockedAddrs blocks every maccPerms account with no removal (no delete on the map, no false entry) — Fund is then the only way coins enter the pool account, which the equation total = module balance needs")
+	checkBlockedAddrs(r, "R5", "ucdao")
+
 }
 
 // staleCheck implements R3 for one function; returns the number of write-backs examined.
@@ -343,4 +348,76 @@ func staleCheck(r *Run, fn *ssa.Function) int {
 		}
 	}
 	return n
+}
+
+// checkBlockedAddrs: module account `module` is a key of app.maccPerms, and BlockedAddrs inserts true for every
+// maccPerms key and never removes or clears an entry.
+func checkBlockedAddrs(r *Run, rule, module string) {
+	P := r.P
+	// keys of maccPerms (package initialiser of app)
+	keys := map[string]bool{}
+	for _, fn := range P.Funcs {
+		if fnPkgPath(fn) != haqqMod+"/app" || !(fn.Name() == "init" || strings.HasPrefix(fn.Name(), "init#")) {
+			continue
+		}
+		eachInstr(fn, func(in ssa.Instruction) {
+			mu, ok := in.(*ssa.MapUpdate)
+			if !ok {
+				return
+			}
+			// the map literal that is stored into the maccPerms global
+			isMacc := false
+			if mk, ok := mu.Map.(*ssa.MakeMap); ok && mk.Referrers() != nil {
+				for _, ref := range *mk.Referrers() {
+					if st, ok := ref.(*ssa.Store); ok {
+						if g, ok := st.Addr.(*ssa.Global); ok && g.Name() == "maccPerms" {
+							isMacc = true
+						}
+					}
+				}
+			}
+			if !isMacc {
+				return
+			}
+			if k, ok := constString(mu.Key); ok {
+				keys[k] = true
+			}
+		})
+	}
+	r.Check(keys[module], rule, "app.maccPerms#"+module, "", "module account registered", fmt.Sprintf("module account %q is not a key of app.maccPerms (keys: %d): it would not be blocked from receiving plain transfers", module, len(keys)))
+	ba, ok := P.FnOK("(*app.Haqq).BlockedAddrs")
+	if !ok {
+		r.Bad(rule, "anchor/BlockedAddrs", "", "not found")
+		return
+	}
+	rangesMacc, insertsTrue, removes := false, 0, ""
+	eachInstr(ba, func(in ssa.Instruction) {
+		switch x := in.(type) {
+		case *ssa.Range:
+			if u, ok := x.X.(*ssa.UnOp); ok {
+				if g, ok := u.X.(*ssa.Global); ok && g.Name() == "maccPerms" {
+					rangesMacc = true
+				}
+			}
+		case *ssa.MapUpdate:
+			if c, ok := x.Value.(*ssa.Const); ok && c.Value != nil && c.Value.String() == "true" {
+				insertsTrue++
+			} else {
+				removes = "a non-true value is stored at " + P.Pos(instrPos(in))
+			}
+		case *ssa.Call:
+			if b, ok := x.Call.Value.(*ssa.Builtin); ok && (b.Name() == "delete" || b.Name() == "clear") {
+				removes = b.Name() + " at " + P.Pos(instrPos(in))
+			}
+		}
+	})
+	// the module-account insertion uses NewModuleAddress(<ranged key>)
+	okAddr := false
+	eachCall(ba, func(ci CallInfo) {
+		if ci.Name == "NewModuleAddress" {
+			okAddr = true
+		}
+	})
+	r.Check(rangesMacc && insertsTrue >= 2 && removes == "" && okAddr, rule, fnID(ba)+"#blocks-every-module-account", P.Pos(fnPos(ba)), "every maccPerms account is blocked, nothing removed",
+		fmt.Sprintf("BlockedAddrs does not block every module account unconditionally (ranges maccPerms: %v, true-insertions: %d, removal: %q): a module account that can receive plain bank transfers gets coins its own ledger does not know about", rangesMacc, insertsTrue, removes))
 }
